@@ -7,6 +7,7 @@ NOT_APPLICABLE = {}
 
 PROPS["C01"] = {
     "title": "field-element operations are exact arithmetic modulo p",
+    "technique": 'TLA+ field spec (Field/FieldAlg): exhaustive TLC on miniature primes + TLC trace validation of every internal/field call at full size (steered corner operands, internal-representation watch)',
     "level": "exploration",
     "level_text": "Every field operation and raw fiat entry point of the real code is executed on steered corner operands "
                   "(sum/difference/Montgomery windows, limb patterns, all byte-string classes, every alias pattern) and every "
@@ -34,6 +35,7 @@ PROPS["C01"] = {
 
 PROPS["C02"] = {
     "title": "scalar operations are exact arithmetic modulo the group order n",
+    "technique": 'TLA+ scalar spec (ScalarField): exhaustive TLC on miniature orders + TLC trace validation of every Scalar call at full size',
     "level": "exploration",
     "level_text": "Every Scalar method and raw scalar-fiat entry point of the real code is executed on steered corner operands "
                   "(sum/difference/Montgomery windows for modulus n, values around (n-1)/2, special inversion arguments, Sum/Product "
@@ -61,6 +63,7 @@ PROPS["C02"] = {
 
 PROPS["C03"] = {
     "title": "point addition/doubling/negation implement the secp256k1 group law completely",
+    "technique": 'TLA+ transcription of the RCB formulas model-checked over all pairs of projective representatives of a miniature curve + TLC trace validation of the real group operations (stateful chains)',
     "level": "model_checking",
     "level_text": "The Renes-Costello-Batina formulas as transcribed from point_projective.go (Projective.tla) are model-checked by TLC on "
                   "miniature secp256k1-shaped curves for ALL pairs of projective representatives of ALL points (identity representatives "
@@ -100,6 +103,7 @@ _MC_TEXT = ("The algorithm as coded (Mul.tla: split with round-by-carry, sign no
 
 PROPS["C04"] = {
     "title": "variable-base scalar multiplication returns s*P for every scalar and point",
+    "technique": 'TLA+ GLV/ladder spec model-checked for all scalars and points of miniature curves, closed-form half bounds evaluated by TLC at full size + TLC trace validation of the real multiplies (both build configurations)',
     "level": "model_checking",
     "level_text": _MC_TEXT + "the real code is bound by trace validation at full size: the constants of the running binary, the lattice relations "
                   "and the closed-form bound on both halves (< 2^128 for EVERY s; the same formula is validated exhaustively on the miniature curves) "
@@ -118,6 +122,7 @@ PROPS["C04"] = {
 
 PROPS["C05"] = {
     "title": "fixed-base multiplication and the embedded generator tables are exact",
+    "technique": 'TLA+ fixed-base spec model-checked on a miniature curve + stateful TLC trace validation walking all 8160+480 embedded table entries and every single-byte scalar (both build configurations)',
     "level": "model_checking",
     "level_text": _MC_TEXT + "at full size ALL 32x255 entries of the embedded table are walked by a stateful trace specification that carries its own "
                   "running multiple (entry j = entry j-1 + 256^i*G, each row closed by 256*base = next base), all 32x15 odd-table entries are checked "
@@ -134,6 +139,7 @@ PROPS["C05"] = {
 
 PROPS["C06"] = {
     "title": "SEC 1 point decoding is strict and encoding is a bijection on curve points",
+    "technique": 'declarative TLA+ SEC 1 codec model-checked over every byte string of a one-byte-coordinate curve + TLC trace validation of the real decoders with receiver state before/after',
     "level": "model_checking",
     "level_text": "Sec1.tla states declaratively which byte strings encode which point; TLC checks on miniature curves with one-byte coordinates "
                   "(n < p < 2^8 < 2n, so non-canonical coordinates exist as on the real curve) for EVERY byte string of length 0..2W+1 that the decoder "
@@ -157,6 +163,7 @@ PROPS["C06"] = {
 
 PROPS["C16"] = {
     "title": "multi-scalar and double-scalar multiplication return the exact combination",
+    "technique": 'TLA+ Straus / double-scalar spec model-checked on a miniature curve + TLC trace validation over list shapes, operand classes and aliasing (both build configurations)',
     "level": "model_checking",
     "level_text": _MC_TEXT + "including Straus over lists with repeated, mutually inverse and identity points and partial sums through the identity, and the "
                   "double-scalar multiply for all (u2, P) x edge u1; the real MultiScalarMult / MultiScalarMultVartime / DoubleScalarMultBasepointVartime "
@@ -183,6 +190,7 @@ _ECDSA_MC = ("Ecdsa.tla states SEC 1 4.1.3-4.1.6 with the library's low-s / reco
 
 PROPS["C07"] = {
     "title": "ECDSA verification accepts exactly the signatures SEC 1 section 4.1.4 accepts",
+    "technique": 'TLA+ ECDSA spec model-checked against a discrete-log definition of validity for all keys/e/(r,s) on a miniature curve + TLC trace validation of constructed boundary signatures at full size',
     "level": "model_checking",
     "level_text": _ECDSA_MC + "The real VerifyRaw / Verify (3 encodings x malleability x hash sizing) / bitcoin.VerifyASN1 / the private-key path are bound by "
                   "trace validation at full size: TLC evaluates the predicate (DER/compact/BIP-66 grammars from Wire.tla included) on the logged key, digest "
@@ -200,6 +208,7 @@ PROPS["C07"] = {
 
 PROPS["C08"] = {
     "title": "ECDSA signing always yields a valid, low-s, correctly recoverable signature",
+    "technique": 'TLA+ signing step (SignWithNonce) model-checked for all (d,e,k) on a miniature curve + TLC trace validation inferring the nonce of every real signature',
     "level": "model_checking",
     "level_text": _ECDSA_MC + "The real SignRaw / Sign are bound by trace validation: for every logged signature TLC infers the nonce (+-s^-1(e + r d)) and requires "
                   "the output to be exactly SignWithNonce(d,e,k) (pins low-s and the recovery id), to verify, and to be recovered by its id and by no other id; "
@@ -218,6 +227,7 @@ PROPS["C08"] = {
 
 PROPS["C09"] = {
     "title": "signing nonces are never reused, biased or RNG-trusting; RFC 6979 mode is exact",
+    "technique": 'TLA+ state machine of one Sign call (Nonce.tla): TLC exhaustive + Apalache inductive invariant; RFC 6979 DRBG state machine; stateful TLC trace validation of scripted entropy readers (determinism / uniqueness maps)',
     "level": "model_checking",
     "level_text": "Nonce.tla is the state machine of one Sign call (io.ReadFull over an arbitrary reader script, the per-signature DRBG, the bounded rejection "
                   "sampler, the sign/retry loop); TLC enumerates all reader scripts x candidate-class sequences and checks 'signed => exactly W bytes of entropy, "
@@ -242,6 +252,7 @@ PROPS["C09"] = {
 
 PROPS["C10"] = {
     "title": "ECDH is symmetric and exact; key objects only ever hold valid keys",
+    "technique": 'TLA+ ECDH/key spec model-checked for all key pairs of a miniature curve + TLC trace validation of constructors, cached encodings, immutability probes and repeated ECDH',
     "level": "model_checking",
     "level_text": _ECDSA_MC + "ECDH symmetry and exactness are model-checked for ALL (a, b) of the miniature curve. The real constructors / accessors / ECDH are bound by trace "
                   "validation: private-key candidates {0, 1, n-1, n, n+1, 2^256-1, wrong lengths, random}, public-key byte strings in every SEC 1 class plus hybrid, "
@@ -257,6 +268,7 @@ PROPS["C10"] = {
 
 PROPS["C11"] = {
     "title": "public-key recovery returns exactly the key the signature verifies under",
+    "technique": 'TLA+ recovery spec model-checked for all (e,r,s,v) on a miniature curve + TLC trace validation for ids 0..255 on honest and constructed signatures',
     "level": "model_checking",
     "level_text": _ECDSA_MC + "The real RecoverPublicKey is bound by trace validation for ids 0..255 on honest signatures (only the emitted id recovers the signer), on r = x - n "
                   "for constructed x in [n,p) (ids 2/3 succeed and the key verifies), r >= p-n with bit 1 set (must fail), r not an x-coordinate, r or s = 0, "
@@ -270,6 +282,7 @@ PROPS["C11"] = {
 
 PROPS["C12"] = {
     "title": "signature and key wire formats are strict, canonical, and parsed without panics",
+    "technique": 'wire formats as TLA+ grammars (DER, BIP-66 from the BIP text, SPKI) model-checked over all short byte strings + TLC trace validation of structural deviations and random bytes through every parser',
     "level": "model_checking",
     "level_text": "Wire.tla states the accepted languages as grammars over byte sequences (strict-DER SEQUENCE{INTEGER,INTEGER}, compact forms, BIP-66 written "
                   "from the BIP text, SubjectPublicKeyInfo with exact OIDs and a BIT STRING without unused bits). TLC checks on a one-byte scalar width that for "
@@ -308,6 +321,7 @@ _SCHNORR_MC = ("Schnorr.tla transcribes BIP-340 (lift_x, Verify, Sign with the d
 
 PROPS["C13"] = {
     "title": "BIP-340 verification accepts exactly what the BIP-340 algorithm accepts",
+    "technique": 'TLA+ transcription of BIP-340 Verify model-checked with the challenge ranging over Z_n on a miniature curve + TLC trace validation recomputing the tagged hashes',
     "level": "model_checking",
     "level_text": _SCHNORR_MC + "The real NewSchnorrPublicKey / Verify are bound by trace validation at full size: TLC recomputes the tagged challenge hash and the "
                   "whole Verify algorithm on the logged key, message and signature for honest signatures over message lengths {0,1,31,32,33,64,65,1000}, "
@@ -324,6 +338,7 @@ PROPS["C13"] = {
 
 PROPS["C14"] = {
     "title": "BIP-340 signing is the specified function of (key, aux randomness, message)",
+    "technique": 'TLA+ transcription of BIP-340 Sign (byte for byte, tagged hashes in TLA+) + model-checked sign algebra + TLC trace validation of deep and public signing, key derivations and immutability',
     "level": "model_checking",
     "level_text": _SCHNORR_MC + "The real signSchnorr (deep, chosen aux) and the public Sign (scripted entropy reader) are bound by trace validation: the logged signature "
                   "must equal Schnorr!SignB(sk, m, aux) byte for byte (TLC evaluates the aux/nonce/challenge tagged hashes itself) and verify; all four "
@@ -341,6 +356,7 @@ PROPS["C14"] = {
 
 PROPS["C15"] = {
     "title": "hash-to-curve equals RFC 9380 (secp256k1 XMD:SHA-256 SSWU RO/NU) on every input",
+    "technique": 'TLA+ transcription of RFC 9380 (XMD, hash_to_field, SWU 6.6.2 and F.2, isogeny) with F.2 = 6.6.2 model-checked for all u on a miniature field + TLC recomputing the whole pipeline for every logged call',
     "level": "model_checking",
     "level_text": "H2C.tla transcribes RFC 9380: expand_message_xmd (incl. DSTs over 255 bytes), hash_to_field with L = 48, the simplified SWU map in its "
                   "declarative form (6.6.2: inv0, is_square, sqrt, sgn0), the 3-isogeny with the RFC's constants, and the straight-line form F.2 with "
@@ -369,6 +385,7 @@ PROPS["C15"] = {
 
 PROPS["C18"] = {
     "title": "no invalid objects via the API; aliasing and caller mutation are harmless",
+    "technique": 'TLA+ state machine of the public API (Api.tla): exhaustive TLC exploration on a miniature curve, TLC-generated call schedules (exhaustive single calls + simulated histories) replayed on real objects, whole-pool trace validation',
     "level": "model_checking",
     "level_text": "Api.tla is the state machine of the public API over a pool of Point slots (possibly zero-value), Scalar slots, byte buffers shared with the "
                   "library and a private/public key object: Step(st, call) gives the outcome kind (ok / err / panic) and successor state of every call, with slot "
@@ -422,6 +439,7 @@ def _same_traces(work, files, drv, env):
 _PG = ("verif", "purego")
 PROPS["C19"] = {
     "title": "assembly and pure-Go builds are observationally identical",
+    "technique": 'instruction-level TLA+ model generated from point_mul_table_amd64.s and model-checked + TLC trace validation of both lookups against the portable reference + identical-trace comparison of all arithmetic harnesses across build configurations',
     "level": "model_checking",
     "level_text": "Trace_Lookup.tla states the contract of the two constant-time table lookups (entry idx bit for bit, identity for index 0, only coordinate bytes "
                   "written, and an access pattern that is a function of the routine and the table placement only). A renamed copy of the CURRENT portable lookup is "
@@ -462,6 +480,7 @@ PROPS["C19"] = {
 
 PROPS["C20"] = {
     "title": "keys, points, scalars and tables are safe for concurrent read-only use",
+    "technique": 'TLA+ goroutine model (frame condition => race freedom, results as alone; buggy variant must fail) + race-instrumented concurrent driver validated by a stateful TLC trace spec (sequential results, deep memory images)',
     "level": "exploration",
     "level_text": "Conc.tla models N goroutines performing read-only operations on shared objects at memory-access grain; TLC shows (3 goroutines x 2 operations, all "
                   "interleavings) that the FRAME CONDITION - no step of an operation writes a shared location - implies race freedom and that every call returns what "
@@ -515,6 +534,7 @@ def _ct_funcs(work, files, drv, env):
 _COVER = ("-cover", "-covermode=atomic", "-coverpkg=gitlab.com/yawning/secp256k1-voi/...")
 PROPS["C17"] = {
     "title": "secret-handling operations run a secret-independent control and lookup pattern",
+    "technique": 'constant time as a TLA+ relation on observations (CT.tla) + stateful TLC validation of per-call coverage-counter vectors across secret families, Vartime reachability, page-fault access patterns + instruction-level TLA+ model generated from the assembly',
     "level": "exploration",
     "level_text": "CT.tla defines constant time as a relation on observations (the bag of basic blocks executed and the sequence of table entries touched must be a "
                   "function of the public input alone) and gives the observation semantics of the two window ladders; TLC shows on a miniature instance that the "
